@@ -148,7 +148,8 @@ def cases(shard, nshards, seed, tier):
     for i in range(8 if tier == "quick" else 80):
         if mine():
             yield {"family": "derived", "i": i}
-    for kind in (["many-chains", "many-residues", "exactly-62-chains"] if tier == "quick" else ["many-chains", "many-residues", "many-atoms", "exactly-62-chains", "exactly-9999-residues"]):
+    for kind in (["many-chains", "many-residues", "exactly-62-chains", "many-residues-by-icode", "serial-exactly-99999", "resseq-exactly-9999"] if tier == "quick" else
+                 ["many-chains", "many-residues", "many-atoms", "exactly-62-chains", "exactly-9999-residues", "many-residues-by-icode", "exactly-9999-residues-by-icode", "serial-exactly-99999", "resseq-exactly-9999"]):
         if mine():
             yield {"family": "limit", "kind": kind}
 
@@ -281,6 +282,24 @@ def run_case(case, rec):
             for i in range(nres):
                 serial += 1
                 rows.append(_row(serial, "P", "LONG", i + 1, i))
+        elif kind in ("many-residues-by-icode", "exactly-9999-residues-by-icode"):
+            # more than 9999 residues in a chain although fewer than 9999 distinct residue NUMBERS: every number
+            # occurs without and with insertion code A
+            nres = 10002 if kind == "many-residues-by-icode" else 9999
+            for i in range(nres):
+                serial += 1
+                r = _row(serial, "P", "LONG", i // 2 + 1, i)
+                r["icode"] = "A" if i % 2 else None
+                rows.append(r)
+        elif kind == "serial-exactly-99999":
+            # the largest legal serial: a fragment whose ids end at 99999 fits as it is
+            for i, sn in enumerate([99957, 99960, 99961, 99970, 99990, 99998, 99999]):
+                rows.append(_row(sn, ["P", "C1'", "N1"][i % 3], "B" if i < 4 else "A", 9990 + i, i))
+        elif kind == "resseq-exactly-9999":
+            for i, num in enumerate([9997, 9998, 9999]):
+                for a in ("P", "C1'"):
+                    serial += 1
+                    rows.append(_row(serial, a, "Z", num, serial))
         else:
             for i in range(100001):
                 serial += 1
